@@ -69,9 +69,9 @@ func NewStd(u *Universe) *Std {
 	s.SEq = u.DeclareAs("", "SEq", StructOf(F("A", B("int")), F("L", Slice(B("int"))), F("Q", Ptr(B("string")))))
 	s.SEq.EqualMethod, s.SEq.CompareMethod = "derived", "derived"
 	s.SCi = u.DeclareAs("", "SCi", StructOf(F("Word", B("string"))))
-	s.SCi.EqualMethod, s.SCi.CompareMethod = "custom", "custom"
+	s.SCi.EqualMethod, s.SCi.CompareMethod, s.SCi.HashMethod = "custom", "custom", "custom"
 	s.SCv = u.DeclareAs("", "SCv", StructOf(F("Word", B("string"))))
-	s.SCv.EqualMethod, s.SCv.CompareMethod = "customv", "customv"
+	s.SCv.EqualMethod, s.SCv.CompareMethod, s.SCv.HashMethod = "customv", "customv", "customv"
 	s.SCd = u.DeclareAs("", "SCd", StructOf(F("N", B("int32"))))
 	s.SCd.CompareMethod = "customd"
 	s.SD = u.DeclareAs("", "SD", StructOf(F("At", s.SCd), F("V", B("int8"))))
